@@ -1126,8 +1126,8 @@ theorem arc_runFrame (p : Prog) (hh : Hist) {s0 : St} {f : Frame} {rest : List F
     simp only [runFrame, doReinsert]
     split
     · exact quiet _ (by asame0) (fun a => by simp [queueH, hs, frameH, St.push, St.emit])
-    · split <;> exact quiet _ (by asame0) (fun a => by simp [queueH, hs, frameH, St.push, St.emit])
-    · split <;> exact quiet _ (by asame0) (fun a => by simp [queueH, hs, frameH, St.push, St.emit])
+    · split <;> exact quiet _ (by refine ⟨?_, ?_, ?_, ?_, ?_, ?_, ?_⟩ <;> simp only [St.push, St.emit]) (fun a => by simp [queueH, hs, frameH, St.push, St.emit])
+    · split <;> exact quiet _ (by refine ⟨?_, ?_, ?_, ?_, ?_, ?_, ?_⟩ <;> simp only [St.push, St.emit]) (fun a => by simp [queueH, hs, frameH, St.push, St.emit])
   | replayTake sys idx =>
     exact quiet _ (by simp only [runFrame, doReplayTake]; asame0) (fun a => by simp [runFrame, doReplayTake, queueH, hs, frameH, St.push])
   | replayLoop sys r kept idx =>
@@ -1205,6 +1205,7 @@ theorem arc_startTop {s : St} (hst : s.stack = []) (hf : s.arcRc s.nextArc = 0) 
   case gc => exact quiet _ (by asame0) (fun a => by simp [queueH, hst, St.push, St.emit, frameH])
   case poll => exact quiet _ (by asame0) (fun a => by simp [queueH, hst, St.push, St.emit, frameH])
   case frameEnd => exact quiet _ (by asame0) (fun a => by simp [queueH, hst, St.push, St.emit, frameH])
+  case clearTrackers => exact quiet _ (by asame0) (fun a => by simp [queueH, hst, St.emit])
   case wSysEvent sys ty pid =>
     exact happly _ _ ⟨⟨rfl, rfl, rfl, rfl, rfl, rfl⟩, rfl, rfl, rfl⟩ (fun _ => rfl)
   case wBroadcast ty pid => exact happly _ _ ⟨⟨rfl, rfl, rfl, rfl, rfl, rfl⟩, rfl, rfl, rfl⟩ (fun _ => rfl)
